@@ -13,6 +13,12 @@ class _Return(Exception):
     def __init__(self, v): self.v = v
 
 
+class Raised(AnalysisError):
+    """the interpreted code executed a `raise` (a model check may expect or forbid this; to everyone else it is one more
+    reason the evaluation could not be completed)"""
+    def __init__(self, what): AnalysisError.__init__(self, 'interpreted code raised: %s' % what); self.what = what
+
+
 class _Break(Exception): pass
 class _Continue(Exception): pass
 
@@ -114,6 +120,7 @@ class Interp(object):
         if isinstance(st, ast.Break): raise _Break()
         if isinstance(st, ast.Continue): raise _Continue()
         if isinstance(st, ast.Pass): return
+        if isinstance(st, ast.Raise): raise Raised(ast.unparse(st.exc)[:120] if st.exc is not None else 're-raise')
         if isinstance(st, ast.FunctionDef):
             self.funcs[st.name] = st; return
         raise AnalysisError('statement kind %s outside the constant-evaluation whitelist (line %s)'
